@@ -51,6 +51,13 @@ PROPS.update({
               "permutation (value invariant) and non-increasing. The reported hand is compared exactly."),
     "C04": _p(inputs.c04_families, "C04_is_valid for any words (each differently written uniqueness test proved equivalent to NoDup, sentinel case included), "
               "C04_validated / C04_zero_iff for any words via C01/C02's value range.", chk=True),
+    "C06": _p(inputs.c06_families, "C06_invalid (general run-length lemma on the complete regenerated graphs), C06_describes (kernel reflection over the "
+              "7,462 classes: category and class Debug-name built from the structure of the hand), C06_ranges, C06_consistent, C06_cards (with C01)."),
+    "C07": _p(inputs.c07_families, "C07_key: cmp = compare of an injective integer key (case analysis, no sweep), hence reflexive, antisymmetric, transitive, "
+              "total for all pairs and triples; C07_eq; C07_order; C07_enums by reflection over 7,461 adjacent values on the observed derived order."),
+    "C17": _p(inputs.c17_families, "C17_chen by reflection over all 52 x 52 ordered pairs against a Chen spec written from the statement in doubled "
+              "integers; helpers; symmetry; per-card points.", chk=True,
+              assumptions=["f32 arithmetic and ceil are modelled exactly in doubled integers (every intermediate value is a multiple of 0.5 of magnitude <= 22)"]),
     "C08": _p(inputs.c08_families, "C08_card/C08_cycle by sweep over 52 cards; C08_slots definitional; C08_relabel_invariant general for any suit "
               "bijection (C01 for five, combs_map + C02 for six/seven)."),
     "C09": _p(inputs.c09_families, "C09_monotone / C09_min_of_sub / C09_chain: pure logic from C02's lower bound and attainment."),
